@@ -19,6 +19,8 @@ def key(shape, e):
         return f"(({e} as u32) - 0x60)"
     if shape == "str":
         return f"({e}.len() as u32)"
+    if shape == "slice":
+        return f"({e}.len() as u32)"
     if shape[0] == "enum":
         return f"(({e}.0 as u32).wrapping_mul(31).wrapping_add({key(shape[1], e + '.1')}))"
     if shape[0] == "zip":
@@ -35,6 +37,8 @@ def tyname(shape):
         return "char"
     if shape == "str":
         return "&str"
+    if shape == "slice":
+        return "&&[u16]"
     if shape[0] == "enum":
         return f"(usize, {tyname(shape[1])})"
     return f"({tyname(shape[1])}, {tyname(shape[2])})"
@@ -52,10 +56,12 @@ SOURCES = [
     # string iterators as DSL sources (items: char); `st` is a string built from the input array (a, b, c, f / ñ)
     ("chars", "konst::string::chars(st)", "st.chars()", "st.chars().rev()", "char", True, False),
     ("split", "konst::string::split(st, 'b')", "st.split('b')", "st.rsplit('b')", "str", True, False),
+    # nested slices (with empty inner slices) for flatten(): [first half, [], second half, []]
+    ("nested", "nested", "nested.iter().copied()", "nested.iter().copied().rev()", "slice", True, True),
 ]
 
 ADAPTERS = ["map", "filter", "filter_map", "flat_map", "mapflatten", "copied", "enumerate", "rev",
-            "skip0", "skip1", "skip3", "take0", "take2", "skip_while", "take_while", "zip_range", "zip_slice", "zip_from"]
+            "skip0", "skip1", "skip3", "take0", "take2", "skip_while", "take_while", "zip_range", "zip_slice", "zip_from", "zip_short", "flatten"]
 
 REVERSING_CONSUMERS = {"rfind", "rfold", "rposition"}
 CONSUMERS = ["for_each", "all", "any", "count", "find", "find_map", "rfind", "fold", "rfold", "next", "nth0", "nth1", "nth4", "position", "rposition"]
@@ -181,6 +187,19 @@ class Chain:
             c.de = c.de and c.es
             if not c.reversed:
                 c.order_sensitive_seen = True
+        elif ad == "zip_short":
+            c.k.append("zip(20u16..21)"); c.s += ".zip(20u16..21)"; c.p += ".zip(20u16..21)"
+            c.h += ".zip((20u16..21).rev())" if not c.reversed else ".zip(20u16..21)"
+            c.shape = ("zip", sh, "u16")
+            c.de = c.de and c.es
+            if not c.reversed:
+                c.order_sensitive_seen = True
+        elif ad == "flatten":
+            if sh != "slice":
+                return None
+            c.k.append("flatten()"); c.s += ".flatten()"; c.p += ".flatten()"
+            c.h += ".map(|x| x.iter().rev()).flatten()" if not c.reversed else ".flatten()"
+            c.shape = "&u16"; c.es = False
         elif ad == "zip_from":
             c.k.append("zip(100u16..)"); c.s += ".zip(100u16..)"; c.p += ".zip(100u16..)"
             c.h += ".zip(100u16..)"
@@ -411,6 +430,7 @@ def render(progs):
             lines.append(f"fn p{p['id']}(xs: &[u16]) -> Res {{")
             lines.append("    let (a, b) = ab(xs);")
             lines.append("    let st_owned: String = xs.iter().map(|x| char::from(b'a' + (*x as u8))).collect(); let st: &str = &st_owned;")
+            lines.append("    let nested_owned: Vec<&[u16]> = vec![&xs[..xs.len() / 2], &[], &xs[xs.len() / 2..], &[]]; let nested: &[&[u16]] = &nested_owned;")
             lines.append(f"    let k = cu(|| {p['k']});")
             lines.append(f"    let s = cu(|| {p['s']});")
             lines.append(f"    let h = {('Some(cu(|| ' + p['h'] + '))') if p['h'] else 'None'};")
@@ -601,7 +621,7 @@ def run(tier, seed, drv):
     rep["distinct_nontrivial"] = nontrivial
     rep["distinct_outcomes"] = sum(r["outcomes"] for r in results.values())
     rep["rule"] = ("program = (source, adapter chain, consumer) generated from the method grammar; only chains whose std reference type-checks are generated (DoubleEnded/ExactSize tracked); every accepted program is executed on every input array next to the identical std chain (enumerate -> EnumInOrder, rposition -> rev().position()); a mismatch whose output equals the reverse-hoisted model while take/skip/zip precedes the reversal is finding F7, anything else (incl. an unexpected rejection by rustc) is a violation; non-trivial = programs whose output differs between inputs")
-    rep["bounds"] = f"set A: all chains of <= {dict(quick=2, thorough=3)[tier]} adapters x for_each! (quick adds every 3-adapter chain containing rev() for the slice and range sources); set B: chains of <= {dict(quick=1, thorough=2)[tier]} adapters x 14 consumers; set C: collect_const! chains of <= {dict(quick=1, thorough=2)[tier]} adapters x {len(CONST_INPUTS)} const inputs; 5 sources, 18 adapter instances; run-time inputs: all arrays over {{{alpha}}} of length <= {maxlen} ({n_inputs})"
+    rep["bounds"] = f"set A: all chains of <= {dict(quick=2, thorough=3)[tier]} adapters x for_each! (quick adds every 3-adapter chain containing rev() for the slice and range sources); set B: chains of <= {dict(quick=1, thorough=2)[tier]} adapters x 14 consumers; set C: collect_const! chains of <= {dict(quick=1, thorough=2)[tier]} adapters x {len(CONST_INPUTS)} const inputs; 8 sources (incl. string::chars / string::split and nested slices for flatten), 20 adapter instances; run-time inputs: all arrays over {{{alpha}}} of length <= {maxlen} ({n_inputs})"
     rep["samples"] = [p["desc"] for p in progs[:3]] + [progs[len(progs) // 2]["desc"], progs[-1]["desc"]]
     rep["nontrivial_samples"] = [byid[r["id"]]["desc"] for r in list(results.values())[:400] if r["outcomes"] > 3][:5]
     rep["extra"] = {"programs": len(progs) + len(cchains) * len(CONST_INPUTS), "rejected_by_rustc_expected": len(expected_rej), "rejected_by_rustc_unexpected": len(unexpected_rej) + len(const_rejected),
